@@ -47,7 +47,7 @@ EXHAUSTIVE = {"quick": False, "thorough": False}
 PROFILE = {
     "p_frozen": 0.15,
     "p_nested_frozen": 0.1,
-    "p_class_dnc": 0.05,
+    "p_class_dnc": 0.12,
     "p_inplace": 0.55,
     "p_fault": 0.3,
     "p_bad": 0.28,
@@ -109,6 +109,134 @@ def oracle(case):
 
     H.replay(case, on_op=on_op)
     return violations
+
+
+# ---------------------------------------------------------------------------
+# extra: failing operations on classes with invalidated_by dependants
+# (invalidation is outside the modelled grammar: oracle only, real code)
+# ---------------------------------------------------------------------------
+
+_EXTRA_SRC = """
+@spec_class
+class Sub:
+    v: int = 0
+
+@spec_class
+class K:
+    limit: int
+    a: int = 1
+    ns: List[int] = Attr(default_factory=lambda: [1, 2])
+    b: int = Attr(default=7, invalidated_by=["a", "limit"])
+    total: int = Attr(default=0, invalidated_by=["ns"])
+    anything: int = Attr(default=3, invalidated_by=["*"])
+    sub: Sub = Attr(default_factory=Sub)
+
+    @spec_property(cache=True, invalidated_by=["limit", "a"])
+    def summary(self):
+        return f"{self.a}"
+
+    @spec_property(cache=True, invalidated_by=["summary"])
+    def headline(self):
+        return self.summary.upper()
+
+    @spec_property(overridable=True, invalidated_by=["ns"])
+    def size(self):
+        return len(self.ns)
+"""
+
+
+def _extra_ns():
+    from typing import List
+
+    from spec_classes import Attr, spec_class, spec_property
+
+    ns = {"spec_class": spec_class, "Attr": Attr, "spec_property": spec_property, "List": List}
+    exec(compile(_EXTRA_SRC, "<heapgen>", "exec", dont_inherit=True), ns)
+    return ns
+
+
+def _boom(_v):
+    raise RuntimeError("boom")
+
+
+def _extra_failing_calls():
+    """(label, call) -- every call is expected to raise on the prepared states."""
+    return [
+        ("del unset limit", lambda o: o.__delattr__("limit")),
+        ("reset_limit inplace (unset)", lambda o: o.reset_limit(_inplace=True)),
+        ("reset_limit (unset)", lambda o: o.reset_limit()),
+        ("del unmanaged", lambda o: o.__delattr__("nope")),
+        ("a = 'x'", lambda o: setattr(o, "a", "x")),
+        ("ns = [1, 'x']", lambda o: setattr(o, "ns", [1, "x"])),
+        ("with_a('x')", lambda o: o.with_a("x")),
+        ("with_a('x') inplace", lambda o: o.with_a("x", _inplace=True)),
+        ("update(a=5, limit='x') inplace", lambda o: o.update(a=5, limit="x", _inplace=True)),
+        ("update(ns=[3], a='x') inplace", lambda o: o.update(ns=[3], a="x", _inplace=True)),
+        ("update(limit=4, a='x') inplace", lambda o: o.update(limit=4, a="x", _inplace=True)),
+        ("update(a=5, limit='x')", lambda o: o.update(a=5, limit="x")),
+        ("transform(a=inc, ns=boom) inplace", lambda o: o.transform(a=lambda v: v + 1, ns=_boom, _inplace=True)),
+        ("transform_a(boom) inplace", lambda o: o.transform_a(_boom, _inplace=True)),
+        ("with_n('x') inplace", lambda o: o.with_n("x", _inplace=True)),
+        ("without_n(99) inplace", lambda o: o.without_n(99, _inplace=True)),
+        ("transform_n(0, boom) inplace", lambda o: o.transform_n(0, _boom, _by_index=True, _inplace=True)),
+        ("update_sub(v='x') inplace", lambda o: o.update_sub(v="x", _inplace=True)),
+        ("update_sub(v=1, w=2)", lambda o: o.update_sub(v=1, w=2)),
+    ]
+
+
+def _extra_states(K):
+    """Instances with the dependants unset / cached / overridden."""
+
+    def plain():
+        return K()
+
+    def cached():
+        o = K(a=4)
+        o.headline
+        o.size
+        return o
+
+    def overridden():
+        o = K(a=4, b=70, total=10, anything=9)
+        o.summary = "hand written"
+        o.size = 99
+        return o
+
+    def with_limit():
+        o = K(limit=3, a=2)
+        o.headline
+        return o
+
+    return [("plain", plain), ("cached", cached), ("overridden", overridden), ("limit set", with_limit)]
+
+
+def extra(tier, rng):
+    ns = _extra_ns()
+    K = ns["K"]
+    evaluations, violations, keys = 0, [], []
+    for sname, mk in _extra_states(K):
+        for label, call in _extra_failing_calls():
+            o = mk()
+            before = H.deep_snapshot(o)
+            try:
+                call(o)
+            except BaseException as e:  # noqa: BLE001
+                evaluations += 1
+                keys.append((sname, label))
+                if H.deep_snapshot(o) != before:
+                    violations.append(
+                        {
+                            "case": {"extra": "invalidated_by", "state": sname, "call": label},
+                            "violation": [f"{label} on a `{sname}` instance raised {H.exc_name(e)} but changed the instance"],
+                        }
+                    )
+    return {
+        "evaluations": evaluations,
+        "nontrivial": keys,
+        "violations": violations,
+        "disagreements": [],
+        "info": {"failing_calls_on_classes_with_invalidated_by": evaluations},
+    }
 
 
 KNOWN_MATCHERS = {}
